@@ -125,7 +125,12 @@ def gen(shard, rng, tier):
         for _ in range(shard["count"]):
             n = rng.choice([0, 1, 9, 10, 11, 12, 99, 100, 101, 999, 1000, 1001, 9999, 10000, rng.randrange(0, 3000)])
             m = rand_bytes(rng, n)
-            if rng.random() < 0.15:
+            if rng.random() < 0.12:
+                # a message that already carries the envelope (or something like it) is wrapped again like any other
+                inner = rand_bytes(rng, rng.randrange(0, 30))
+                m = rng.choice([b"\x19Ethereum Signed Message:\n%d" % len(inner) + inner, b"\x19Ethereum Signed Message:\n", b"\x19Ethereum Signed Message:\n32" + rand_bytes(rng, 32),
+                                b"Ethereum Signed Message:\n5hello", b"\x19\x01" + rand_bytes(rng, 64), b"\x19\x00" + rand_bytes(rng, 20)])
+            elif rng.random() < 0.15:
                 h = rand_bytes(rng, rng.choice([1, 2, 20, 32])).hex()
                 m = rng.choice([b"0x" + h.encode(), b"0x", h.encode(), b"0x" + h.encode() + b"\n", b"12", b"{}"])
             elif rng.random() < 0.3:
